@@ -71,6 +71,7 @@ def drive(eng, states, method_of, limit, pulls=None):
             if k > limit:
                 done.append((s, itcell, seq, False)); continue
             fn = method_of('next')
+        s.steps = 0
         eng.push_call(s, fn, [Ref(itcell, ())], None, None)
         for o in eng.run(s):
             if o.kind != 'return':
